@@ -10,7 +10,7 @@ for d in sorted(glob.glob('/verif/seeded/*/meta.json')):
     missed = [c for c, r in sorted(m['checks_run'].items()) if not r['caught']]
     rows.append('| %s | %s | %s | %s | %s |' % (name, ('OBSOLETE (no longer breaks the property: ' + m['obsolete']['reason'][:90] + '...)') if m.get('obsolete') else ('yes' if m['confirmed']['all_confirmed'] else 'NO'), notes, '; '.join(caught) or '-', ', '.join(missed) or '-'))
 out = ['# Independently seeded changes', '',
-       'Wave 1 = variants A, B; wave 2 = variants C, D; wave 3 = variants E, F; wave 4 = variants G, H; wave 5 = variants I, J; wave 6 = variants K, L (authors of later waves were told the earlier ideas and asked for different mechanisms).',
+       'Wave 1 = variants A, B; wave 2 = variants C, D; wave 3 = variants E, F; wave 4 = variants G, H; wave 5 = variants I, J; wave 6 = variants K, L; wave 7 = variants M, N (property text only, no steering); wave 8 = variants O, P (authors of later waves were told the earlier ideas and asked for different mechanisms).',
        'Each was confirmed with tools/import_seeded.py (demo passes without, patch applies, 63 baseline tests pass with it, demo fails with it).',
        '"not caught by" lists checks of OTHER properties that were also run against the change and do not see it (by design of their scope).', '',
        '| change | confirmed | what was changed / what it needs (author\'s notes, truncated) | caught by (violated clauses) | also run, not caught by |',
